@@ -16,7 +16,8 @@ RULE = ("cases: (server set with seeds / connection state / certificates, prefer
         "while the clock walks forward across every certificate expiry (one microsecond before / at / after); non-trivial = at "
         "least two candidate servers (the sort decides); distinct = distinct (server ids, seeds, preferred, permitted, storage "
         "index, instant); and tahoe.cfg texts with a [grid_managers] section (well-formed, unusable entries only, good + bad, absent) "
-        "taken through config_from_string / from_node_config to a broker")
+        "taken through config_from_string / from_node_config to a broker; and real in-process grids (upload, lost shares, check-and-repair, "
+        "mutable publish, later upload) whose servers answer upload_permitted() from real certificates")
 META = {
     "title": "Servers are ordered consistently and upload permission is enforced",
     "level_text": ("Theorems in Coq over a model of StorageFarmBroker.get_servers_for_psi (stable sort by (unpreferred, SHA-1(psi ++ "
@@ -358,6 +359,7 @@ def run(ctx):
     publisher(ctx, cfg, terms, info)
     aging(ctx, cfg, terms, info)
     gm_config(ctx, terms, info)
+    repair_grid(ctx, terms, info)
     # one evaluation for all three correspondences (loading the SHA-1 development dominates small batches)
     bad = ctx.coq_check(IMPORTS, terms, tag="c32", shard=max(20, (len(terms) + 7) // 8))
     for ix in bad:
@@ -370,6 +372,10 @@ def run(ctx):
             i, cinfo, contacted, out = rec
             ctx.mismatch("upload-candidates-model-vs-impl", "Coq model of the uploader's server selection and Tahoe2ServerSelector differ", case=cinfo,
                          observed={"contacted": [x.decode() for x in contacted], "outcome": out}, correspondence="uploader-candidates-vs-model")
+        elif which == "repair":
+            i, cinfo, what = rec
+            ctx.mismatch("grid-placement-model-vs-impl", "a real grid %s placed a share outside the model's upload list" % what, case=cinfo,
+                         observed=cinfo.get("new_shares"), correspondence="uploader-candidates-vs-model")
         elif which == "gmconfig":
             i, cinfo, result = rec
             ctx.mismatch("grid-manager-config-model-vs-impl", "Coq model of the [grid_managers] section (an unusable entry refuses the configuration) and "
@@ -438,10 +444,12 @@ def uploader(ctx, cfg, terms, info):
         needed = r.randrange(1, total + 1)
         with clock(W):
             sb = build_broker(W, list(range(len(W["servers"]))), cfg)
-            upload_step(ctx, sb, W, total, needed, dict(describe(W), stream="upload", index=i, total_shares=total), terms, info, i)
+            happy = r.choice([0, 0, 1, 1, needed])          # 0 is what the immutable repairer asks for
+            upload_step(ctx, sb, W, total, needed, dict(describe(W), stream="upload", index=i, total_shares=total, min_happiness=happy), terms, info, i,
+                        happy=happy)
 
 
-def upload_step(ctx, sb, W, total, needed, cinfo, terms, info, i, kind="uploader"):
+def upload_step(ctx, sb, W, total, needed, cinfo, terms, info, i, kind="uploader", happy=1):
     """One upload's server selection on an existing broker, at the current (patched) time."""
     from twisted.internet.task import Clock
     from allmydata.client import SecretHolder
@@ -453,7 +461,7 @@ def upload_step(ctx, sb, W, total, needed, cinfo, terms, info, i, kind="uploader
     outcome = []
     try:
         sel = upload.Tahoe2ServerSelector(b"verif", None, upload.UploadStatus(), reactor=Clock())
-        d = sel.get_shareholders(sb, SecretHolder(b"lease", b"conv"), W["psi"], 1000, 100, 1, total, needed, 1, 500)
+        d = sel.get_shareholders(sb, SecretHolder(b"lease", b"conv"), W["psi"], 1000, 100, 1, total, needed, happy, 500)
         d.addCallbacks(lambda res: outcome.append(("ok", res)), lambda f: outcome.append(("err", f.type.__name__)))
     except Exception as e:
         outcome.append(("err", type(e).__name__))
@@ -624,7 +632,8 @@ def aging(ctx, cfg, terms, info, only=None):
                 terms.append("opt_ids_eqb (run_get_servers %s %s true) %s" % (T.lst(srvs), T.bytes_(W["psi"]), obs))
                 info.append(("order", ("aging", i, cinfo, [got])))
                 if step % 2 == 1 or step == len(times) - 1:
-                    upload_step(ctx, sb, W, total, 1, dict(cinfo, total_shares=total), terms, info, i, kind="aging-uploader")
+                    upload_step(ctx, sb, W, total, 1, dict(cinfo, total_shares=total, min_happiness=step % 2), terms, info, i, kind="aging-uploader",
+                                happy=step % 2)
                     publish_step(ctx, sb, W, r, total, dict(cinfo, total_shares=total), terms, info, i, kind="aging-publisher")
         if i < 1:
             ctx.sample({"aging": describe(W), "times": [x.isoformat() for x in times]})
@@ -739,6 +748,102 @@ def gm_config(ctx, terms, info, only=None):
             info.append(("order", ("gmconfig", i, cinfo, [got[False], got[True]])))
 
 
+def repair_grid(ctx, terms, info, only=None):
+    """A real in-process grid (allmydata.test.no_network) whose client selects servers with the real
+    StorageFarmBroker.get_servers_for_psi and whose servers answer upload_permitted() with real grid-manager verifiers over
+    real certificates and a clock we control: upload a file, lose shares, (let a certificate run out,) check-and-repair,
+    publish a mutable file.  No operation may ever put a NEW share on a server without a certificate valid at that time."""
+    from core import grid as G
+    from allmydata.grid_manager import create_grid_manager_verifier, SignedCertificate
+    from allmydata.monitor import Monitor
+    from allmydata.storage_client import StorageFarmBroker
+    from allmydata.util import base32
+    for i in (range(ctx.n(5, 40)) if only is None else [only]):
+        r = ctx.rng("repair", i)
+        ns = r.choice([5, 6, 7])
+        n = r.choice([4, 5, 6])
+        with G.Grid(num_servers=ns, k=2, n=n, happy=1, seed=r.randrange(2 ** 30)) as g:
+            c0 = g.client(0)
+            sb = c0.storage_broker
+
+            class RealSelection(sb.__class__):
+                permute_peers = True
+                preferred_peers = ()
+                get_servers_for_psi = StorageFarmBroker.get_servers_for_psi
+            sb.__class__ = RealSelection
+            w = c33.World()
+            gk = r.randrange(c33.NGM)
+            base = datetime(2025, 6, 1, tzinfo=timezone.utc) + timedelta(seconds=r.randrange(10 ** 7))
+            W = dict(world=w, keys=[gk], now=base, preferred=(), psi=b"", servers=[])
+            byidx = {}
+            kinds = ["valid"] * 3 + [r.choice(["expired", "none", "other-gm", "soon"]) for _ in range(ns - 3)]
+            r.shuffle(kinds)
+            for srv, kind in zip(sorted(c0._servers, key=lambda x: g.server_index(x.get_serverid())), kinds):
+                pub = b"pub-v0-" + base32.b2a(rbytes(r, 32))
+                exp = base + timedelta(days=r.randrange(2, 400))
+                signer = gk
+                if kind == "expired":
+                    exp = base - timedelta(hours=r.randrange(1, 1000))
+                elif kind == "soon":
+                    exp = base + timedelta(hours=1)              # runs out before the repair
+                elif kind == "other-gm":
+                    signer = (gk + 1) % c33.NGM
+                certs = []
+                if kind != "none":
+                    data = c33.cert_bytes(pub, exp.isoformat())
+                    certs.append(dict(kind=kind, data=data, sig=w.sign(signer, data), exp=exp, static_ok=(signer == gk), ok=False, garbage=False))
+                srv.upload_permitted = create_grid_manager_verifier(
+                    [c33.key("G%d" % gk)[1]], [SignedCertificate(certificate=c["data"], signature=c["sig"]) for c in certs], pub,
+                    now_fn=lambda: W["now"], bad_cert=lambda k_, c_: None)
+                rec = dict(id=pub[len(b"pub-"):], seed=srv.get_permutation_seed(), connected=True, certs=certs, unparseable=None, kind=kind)
+                byidx[g.server_index(srv.get_serverid())] = len(W["servers"])
+                W["servers"].append(rec)
+            set_time(W, base)
+
+            def holders_ok(what, cap_or_si, placed, step):
+                """placed: {grid server number: [new share numbers]}"""
+                W["psi"] = g._si(cap_or_si)
+                cinfo = dict(describe(W), stream="repair", index=i, step=step, operation=what, server_kinds=[s_["kind"] for s_ in W["servers"]],
+                             new_shares=dict((str(byidx[k_]), v) for k_, v in sorted(placed.items())))
+                ctx.case(("repair", what, tuple(sorted(placed.items())), tuple(s_["kind"] for s_ in W["servers"]), W["now"]), kind="grid-" + what)
+                for num, shs in sorted(placed.items()):
+                    s_ = W["servers"][byidx[num]]
+                    if shs and not rule_permitted(W, s_):
+                        ctx.oracle_fail("share-placed-on-unpermitted-server:" + what,
+                                        "%s at %s wrote new share(s) %s to server #%d, whose certificate state is '%s' (no certificate from the configured grid "
+                                        "manager that is valid at that time)" % (what, W["now"].isoformat(), shs, byidx[num], s_["kind"]),
+                                        case=cinfo, expected="only servers with a valid certificate receive shares", observed={str(byidx[num]): shs})
+                        break
+                spk_ids = {}
+                srvs = [srv_term(W, s_, k_, s_["seed"], spk_ids) for k_, s_ in enumerate(W["servers"])]
+                got = T.lst([T.N(byidx[num]) for num, shs in sorted(placed.items()) if shs])
+                terms.append("(let ok := match run_get_servers %s %s true with Some l => l | None => [] end in forallb (fun x => existsb (N.eqb x) ok) %s)"
+                             % (T.lst(srvs), T.bytes_(W["psi"]), got))
+                info.append(("repair", (i, cinfo, what)))
+
+            data = rbytes(r, r.randrange(200, 3000))
+            cap = g.run(g.upload(data, convergence=b""))
+            m1 = g.share_map(cap)
+            holders_ok("upload", cap, m1, 0)
+            lost = r.sample(range(n), r.choice([1, 2, 3]))
+            g.delete_shares(cap, shnums=lost)
+            if r.random() < 0.6:
+                set_time(W, base + timedelta(hours=r.randrange(2, 48)))         # 'soon' certificates have run out by now
+            before = g.share_map(cap)
+            out = g.run(g.node(cap).check_and_repair(Monitor()), outcome=True)
+            after = g.share_map(cap)
+            new = dict((num, sorted(set(shs) - set(before.get(num, [])))) for num, shs in after.items())
+            holders_ok("check-and-repair", cap, new, 1)
+            if out.status != "ok":
+                ctx.count("repair-outcome:" + str(out.error))
+            mnode = g.run(g.create_mutable(rbytes(r, 100)), outcome=True)
+            if mnode.status == "ok":
+                holders_ok("mutable-publish", mnode.value.get_uri(), g.share_map(mnode.value.get_uri()), 2)
+            cap2 = g.run(g.upload(rbytes(r, 500), convergence=b""), outcome=True)
+            if cap2.status == "ok":
+                holders_ok("later-upload", cap2.value, g.share_map(cap2.value), 3)
+
+
 def replay(ctx, rec):
     c = rec.get("case") or {}
     stream, i = c.get("stream"), c.get("index")
@@ -746,6 +851,10 @@ def replay(ctx, rec):
         terms, info = [], []
         W = order_case(ctx, i, node_config(), terms, info, stream=stream)
         return {"case": describe(W), "model_vs_impl_disagreements": ctx.coq_check(IMPORTS, terms, tag="c32r")}
+    if stream == "repair":
+        terms, info = [], []
+        repair_grid(ctx, terms, info, only=i)
+        return {"operations": [x[1][2] for x in info], "model_vs_impl_disagreements": ctx.coq_check(IMPORTS, terms, tag="c32r")}
     if stream == "gmconfig":
         terms, info = [], []
         gm_config(ctx, terms, info, only=i)
